@@ -718,6 +718,8 @@ class Container(Op):
                            for i, n in enumerate(info.shape)]
             if tape.chance(1, 5, "cont.tchunk") and info.n >= 2:
                 d["chunks"][0] = list(tape.composition(info.n, "cont.t", maxparts=3))
+            # other ways to say it: a dict, plain ints, -1 / "auto" per axis
+            d["form"] = ["tuples", "dict", "ints", "auto"][tape.weighted([4, 1, 1, 1], "cont.form")]
         return d
 
     def call(self, pb, z, args, desc):
@@ -729,6 +731,13 @@ class Container(Op):
         if k == "rechunk":
             if 0 in z.shape:
                 return z.rechunk()
+            form = desc.get("form", "tuples")
+            if form == "dict":
+                return z.rechunk({i: tuple(c) for i, c in enumerate(desc["chunks"]) if i})
+            if form == "ints":
+                return z.rechunk(tuple(max(c) for c in desc["chunks"]))
+            if form == "auto":
+                return z.rechunk((-1,) + ("auto",) * (len(desc["chunks"]) - 1), balance=True)
             return z.rechunk(tuple(tuple(c) for c in desc["chunks"]))
         if k == "persist":
             return z.persist(**args.get("sched_kw", {}))
